@@ -87,6 +87,13 @@ DETECTED = {
     'C12_d': ('C12', {'C12': '28/28', 'C03': '40/25'}, 'MISSED as built by C12 (C03 caught it): the further-learning-step clause was only run with dict_ndl; now also with ndl.ndl threading / openmp continuing from the matrix'),
     'C16_d': ('C16', {'C16': '3/3'}, 'as built (cached attribute template shared between calls)'),
     'C17_d': ('C17', {'C17': '89/98', 'C05': '40/43'}, 'as built (scratch chunk file in the system temp dir left behind by a failing conversion job)'),
+    'C06_e': ('C06', {'C06': '7/12', 'C08': '0/0 (wh.wh cannot produce an event without outcomes: the empty field is the outcome \'\')'}, 'as built (real_to_binary kernel skips events without outcomes: direct kernel calls on chunks with outcome-less events)'),
+    'C08_e': ('C08', {'C08': '46/42'}, 'as built (binary_to_real kernel takes the last outcome vector instead of the sum)'),
+    'C09_e': ('C09', {'C09': '5/2'}, 'as built (lower-casing moved behind the symbol filter; needs lower_case=True with a lower-case-only allowed set)'),
+    'C13_e': ('C13', {'C13': '29/32', 'C01': '5/5 (after the stream zero_parameter was added; 0/0 as built)'}, 'as built for C13 (beta2 = 0 law); MISSED by C01 as built (0/0): its parameter generator never drew a parameter that is exactly zero — stream zero_parameter (beta2 / beta1 / lambda / alpha = 0) added to C01'),
+    'C18_e': ('C18', {'C18': '1/2'}, 'as built (scratch buffer shared between OpenMP threads: C-ordered input, n_jobs > 1, more events than the chunk size; nondeterministic)'),
+    'C19_e': ('C19', {'C19': '4/4'}, 'as built (imap chunksize 0 when there are fewer files than workers)'),
+    'C20_e': ('C20', {'C20': '2/2'}, 'as built (backward walk returns the word with the frequency of the dominating word)'),
 }
 
 
@@ -96,7 +103,14 @@ def main():
     for sid, (prop, det, note) in sorted(DETECTED.items()):
         src = os.path.join(SRC, sid)
         if not os.path.exists(os.path.join(src, 'patch.diff')):
-            print('missing', sid)
+            # already packed in an earlier session and the scratch output is gone: keep its row from the packed meta.json
+            mp = os.path.join(OUT, sid, 'meta.json')
+            if os.path.exists(mp):
+                meta = json.load(open(mp))
+                rows.append((sid, prop, meta.get('summary', ''), meta.get('needs_to_manifest', ''), meta.get('detected_by', det),
+                             meta.get('note', note), meta.get('confirmed_in_fresh_worktree')))
+            else:
+                print('missing', sid)
             continue
         conf = os.path.join(src, 'confirm.log')
         confirmed = None
